@@ -131,6 +131,84 @@ def _text(pid, sig, w):
     return None, f"observation: problems={rep.get('problems')}"
 
 
+ARENA_PIDS = {"C01", "C02", "C03", "C04", "C05", "C06", "C07", "C08", "C11", "C16"}
+
+
+def _arena(pid, sig, w):
+    """re-runs the recorded parse with the parser the current /repo generates (pristine, probed twin and code
+    variants in a one-off arena) and re-judges it against what the witness recorded"""
+    from .oneoff import run as run_oneoff
+    from .campaign import strip_trivia
+    from .model import parse_canonical
+    toks = w.get("tokens", [])
+    if w.get("ntokens", len(toks)) != len(toks):
+        return None, "the witness does not hold the whole input"
+    g = parse_canonical(w["grammar"])
+    trivia = set(g.skipped) | {"Error"}
+    base = [t for t in toks if t not in trivia]
+    cases = [(w.get("entry", ""), toks, w.get("modes", "11"), _jobseed(w, base)), (w.get("entry", ""), base, w.get("modes", "11"), _jobseed(w, base))]
+    out = run_oneoff(w["grammar"], cases, name="replay")
+    u = out[0]
+    if pid == "C11":
+        if sig.startswith("llw-crash"):
+            return u.llw_exit not in (0, 1), f"llw exit {u.llw_exit}"
+        if sig.startswith("not-compilable") or sig.startswith("bucket="):
+            return u.llw_exit == 0 and bool(u.compile_error), f"llw exit {u.llw_exit}, rustc: {(u.compile_error or ['ok'])[0]}"
+        if sig.startswith("rejected-but-wrote"):
+            return u.llw_exit == 1 and any(f != "g.llw" for f in u.files), f"llw exit {u.llw_exit}, files {u.files}"
+        return None, "no replay procedure for this C11 signature"
+    if u.llw_exit != 0 or u.compile_error or out[1] is None:
+        return None, f"the grammar is not accepted / does not compile any more (llw exit {u.llw_exit}): cannot re-run the parse"
+    pr, qr, inc = out[1], out[2], out[3]
+    if inc:
+        return pid == "C03", f"arena incident: {inc[0]['kind']} rc={inc[0].get('rc')}"
+    rec, prec = pr[0], qr[0]
+    problems = (rec.get("problems") or []) + (prec.get("problems") or [])
+    panic = rec.get("panic") or prec.get("panic")
+    info = f"tree={str(rec.get('tree'))[:200]} diags={rec.get('diags')} problems={problems[:3]} panic={panic}"
+    if pid == "C03":
+        return panic is not None, info
+    if panic is not None:
+        return True, info
+    if pid in ("C01", "C02") or (pid == "C08" and "differs-from" not in sig) or (pid == "C16" and ("peek" in sig)) or (pid == "C06" and "span-outside" in sig):
+        return any(p.startswith(pid) for p in problems), info
+    nodiag = len(rec.get("diags", [])) == 0
+    if pid == "C04":
+        if "valid-input-diagnosed" in sig:
+            return not nodiag, info
+        if "invalid-input-accepted" in sig:
+            return nodiag, info
+    if pid in ("C05", "C07") and "want" in w:
+        got = strip_trivia(rec["tree"], trivia)
+        return got != w["want"], f"tree now {got[:300]} | recorded expectation {w['want'][:300]}"
+    if pid == "C06":
+        syn = [d for d in rec["diags"] if d[2] == 0]
+        if "first-error-position" in sig and "want_span" in w:
+            return (not syn) or list(syn[0][:2]) != list(w["want_span"]), f"first diagnostic now {syn[:1]}, expected at {w['want_span']}"
+        if "not-increasing" in sig:
+            return any(not (b[0] > a[0]) for a, b in zip(syn, syn[1:])), info
+    if pid == "C16":
+        other = pr[1]
+        t1, t0 = strip_trivia(rec["tree"], trivia), strip_trivia(other["tree"], trivia)
+        if "tree-changes" in sig or sig.startswith("bucket="):
+            return t1 != t0, f"with trivia {t1[:200]} | without {t0[:200]}"
+        if "diagnostics-change" in sig:
+            return len(rec["diags"]) != len(other["diags"]), f"diagnostics with trivia {rec['diags']} | without {other['diags']}"
+    if pid == "C08" and "differs-from" in sig:
+        import json as _j
+        bad = False
+        for k_, v_ in out[4].items() if len(out) > 4 else []:
+            pass
+        return None, "differential witness: re-run ./vf check C08 (the code variants are rebuilt there)"
+    return None, "no replay procedure for this signature; observation: " + info
+
+
+def _jobseed(w, base):
+    import hashlib
+    hseed = int(hashlib.sha1(repr((w.get("entry", ""), base)).encode()).hexdigest()[:8], 16)
+    return int(w.get("seed", 1)) * 7919 + hseed
+
+
 def main(path):
     body = json.load(open(path))
     pid, sig, w = body["property"], body["signature"], body["witness"]
@@ -141,6 +219,8 @@ def main(path):
         bad, info = _c10(sig, w)
     elif pid == "C14" and "grammar" in w and "span" in w:
         bad, info = _c14(sig, w)
+    elif pid in ARENA_PIDS and "grammar" in w:
+        bad, info = _arena(pid, sig, w)
     elif pid in ("C12", "C17", "C18") and "text" in w:
         bad, info = _text(pid, sig, w)
     elif pid == "C13" and "text" in w:
